@@ -100,3 +100,12 @@ claim('C16', 'Lean 4 proofs (decoders invert the reference encoders: Intel HEX r
       'CLI prints in all four formats with these decoders and compares with the address->byte map recovered from two real .bin runs, '
       'and matches listing rows against the assembled statements.',
       NOTE + ' The third-party intelhex writer is not modelled; its output is only decoded. Known finding D17 (minhex-gap-without-org) is reported as KNOWN-FINDING.')
+
+claim('C13', 'Lean 4 decision-logic proofs (first matching variant, specific before sets, disallowed skipped, stable rank order inside a set, registers never numeric) + differential correspondence',
+      'Kernel-checked theorems: the selected variant is the first in definition order whose operand pattern accepts and all earlier '
+      'ones decline; rejection iff every variant declines; specific operand combinations precede operand sets; a disallowed '
+      'combination is skipped; inside a set the alternatives are tried in a stable sort by type rank (bracketed / indexed < keys < '
+      'registers < numeric) and the first acceptance wins; numeric-like types never accept an expression containing a register name. '
+      'Each run compares the bytes (unique opcodes / operand codes identify the choice) and exit status of the real CLI with the '
+      'model on deliberately ambiguous generated ISAs, incl. multi-statement programs.',
+      NOTE + ' Operand forms are syntactic classes of operand text; quirks of the regexes outside the generated forms (e.g. enumeration keys matched as a prefix) are listed in DESIGN.md.')
